@@ -25,6 +25,7 @@ def cfg : Cfg :=
     sigCont := (Gen.C01.signalMap.lookup "resume").getD 0
     sigTerm := (Gen.C01.signalMap.lookup "terminate").getD 0
     sigKill := (Gen.C01.signalMap.lookup "kill").getD 0
-    ioNoValue := Gen.C01.ioNoValue }
+    ioNoValue := Gen.C01.ioNoValue
+    affinityAll := Gen.C01.affinityResetMask }
 
 end Psutil.C01
